@@ -8,4 +8,4 @@ Extraction Language OCaml.
 Extraction "extracted/imports/model.ml" Byte.of_N Byte.to_N
   should_build spec_should_build match_file match_tags read_imports read_comments
   wf_section render render_body paths
-  unquote scan_dir scan_files.
+  unquote scan_dir scan_files trim_space fields.
